@@ -51,7 +51,11 @@ class C13(Prop):
                   "fasta->afa->fasta identity, --namelen round trip, unaligned output loses no residue in the 60-column wrapping); esl-alistat counts "
                   "(every column has K+1 counters, a canonical residue/gap is counted in its own cell, missing/nonresidue nowhere); esl-afetch returns a record whose "
                   "name or accession is the key (first match without an index, names before accessions with one; the verbatim echo is the record's own lines up to its //); "
-                  "esl-compstruct (correct <= pairs, strict rule symmetric, self comparison perfect, Mathews' rule only relaxes); esl-compalign self comparison; esl-alimask/-alimanip subset theorems. "
+                  "esl-compstruct (correct <= pairs, strict rule symmetric, self comparison perfect, Mathews' rule only relaxes); esl-compalign self comparison; esl-alimask/-alimanip subset theorems; "
+                  "the streamed --small paths (esl_msafile2_RegurgitatePfam as esl-alimask/-alimanip call it: for EVERY keep list / skip list / column mask the output is the header, exactly the wanted rows "
+                  "with name and spacing untouched and the text restricted to the kept columns, then //; identity without options; esl-reformat --small pfam->afa prints exactly the non-small reference's text for every "
+                  "option setting; esl-alistat --small = the non-small summary minus three lines); esl-alimerge (dropping the added columns from a merged row returns the input row; merged length = length + added columns; "
+                  "rows of one input stay aligned). "
                   "esl-translate, esl-weight, esl-alirev and easel filter are compositions of the C17 ORF machine, the C16 weighting/filter models and the C15 "
                   "alignment operations with the C03 readers/writers. "
                   "Tie: the sanitizer-built tools of the working tree are run on generated valid inputs - including files that hold SEVERAL alignments of different "
@@ -63,8 +67,11 @@ class C13(Prop):
                   "pages/tool sources, tied by exact stdout comparison only on the generated valid-input distribution; printf rounding modelled by exact "
                   "rational round-half-even (L0), binary64/binary32 arithmetic of the tools mirrored operation by operation (no theorem about rounded values); "
                   "the crash/hang half is support, not proof: a tool death outside the explored inputs is not excluded. "
-                  "Tools with no reference function (esl-ssdraw, -alimerge, -alimap, -construct, -histplot, -mixdchlet) are covered by the search only; "
-                  "esl-alistat --small, esl-alimask --small, esl-reformat --small/--id_map by python monitors or the search only. "
+                  "Tools with no reference function (esl-ssdraw, -alimap, -construct, -histplot, -mixdchlet) are covered by the search only; esl-alimerge --small/--rfonly and inputs with '~' columns or annotation "
+                  "beyond names/rows/RF likewise; esl-reformat --id_map by a python monitor. The --small modes are modelled line by line (Miniapps/Small.lean) and compared exactly; esl-alistat --small is predicted from the exact residue count "
+                  "(the tool sums fractional per-column counts in binary64 and rounds to nearest since edf1c28). esl-shuffle -w follows the roll range regenerated from esl_randomseq.c (Shuffle/WinParams.lean, shared with C18). "
+                  "Round 6: five repairs of defects found through this check landed in /repo (esl-alistat --small nres truncation edf1c28; directory as input file 5d94071; RegurgitatePfam #=GS lookup before parse 682375e; "
+                  "esl-reformat --small inverted #=GR/SS tests 2415140; esl_rsq_*ShuffleKmers scratch allocation b700765); their witnesses are regression cases. "
                   "The 16 deaths recorded at the start of round 4 and one more found while modelling esl-alimask -p were repaired in /repo (18 patches proposed by this builder in all); their witnesses run "
                   "as regression cases, as do five more found in round 4 by the new references and by the thorough tier once every tool was back in the seed-dependent "
                   "stream (Clustal writer on zero columns fc170bb, esl_sq_Copy #=GR markup b033cd2, esl-compalign -p 6402139, esl-alimanip --c-mx b282134, "
@@ -79,13 +86,18 @@ class C13(Prop):
                    "esl-translate (-c -l -m -M --watson --crick -W), esl-alistat (default, -1, --list --icinfo --rinfo --pcinfo --psinfo --iinfo --cinfo --noambig --bpinfo --weight; Stockholm/Pfam multi-alignment files and afa), "
                    "easel alistat (default, -1; afa and guessed Stockholm/Pfam), esl-weight (-g -p -b --id -f --idf), easel filter (default options), easel index, "
                    "esl-alimask (-t, -g, -p with --pfract/--pthresh/--pavg/--ppcons/--pallgapok, -g -p, --rf-is-mask, mask file, --keepins, --fmask/--gmask/--pmask files), "
-                   "esl-alimanip (selection/removal/numbering options), esl-compstruct (-m -p), esl-compalign (default, -c), esl-alipid / esl-alirev / esl-weight on multi-alignment Stockholm/Pfam files",
-                   "alphabet guessing, the non-FASTA sequence formats as input, the --small modes (esl-alistat, esl-alimask, esl-reformat), "
-                   "esl-reformat --id_map/hmmpgmd, esl-compalign -p, esl-construct, esl-alimap, esl-alimerge, esl-ssdraw, esl-histplot, esl-mixdchlet are not modelled "
+                   "esl-alimanip (selection/removal/numbering options), esl-compstruct (-m -p), esl-compalign (default, -c), esl-alipid / esl-alirev / esl-weight on multi-alignment Stockholm/Pfam files, "
+                   "the --small modes of esl-reformat (pfam->afa, pfam->pfam with every residue option), esl-alimask (-t, mask file, --rf-is-mask), esl-alimanip (--seq-k/--seq-r, several records), esl-alistat (default, -1), "
+                   "esl-alimerge (two files or --list, --outformat; names/rows/RF alignments)",
+                   "alphabet guessing, the non-FASTA sequence formats as input, esl-alimask --small -g/-p, esl-alistat --small info files, esl-alimerge --small/--rfonly, "
+                   "esl-reformat --id_map/hmmpgmd, esl-compalign -p, esl-construct, esl-alimap, esl-ssdraw, esl-histplot, esl-mixdchlet are not modelled "
                    "(python monitors for some, the search for all)",
                    "process and file-system behaviour of the tools, libc printf, and the python runner are trusted; a NaN the tools print is `0.0/0.0` on x86-64 (`-nan`)",
                    "the fixed search streams are the same at every seed (so that every death of the unchanged tree is an exactly known witness); every tool "
-                   "is additionally explored with the seed-dependent stream, on valid inputs x option combinations"]
+                   "is additionally explored with the seed-dependent stream, on valid inputs x option combinations",
+                   "edge stream (round 6), per entry point: empty input files, input without trailing newline, CR-LF, newline-only files, input on stdin, nonexistent and DIRECTORY paths, every "
+                   "output-file option pointed into a nonexistent directory, incompatible option pairs and missing required options from the parsed tables (MUST end in a usage error), 3-5 compatible options at once, "
+                   "and every eslARG_INT option with 12 values at and beyond the int range (2^31-1, 2^31, 2^32-1, 2^32, 2^32+1, -2^31, -2^31-1, 2^63-1, 10^20-1, 0, 1, -1)"]
     rule = ("one case = a few input files + one or more tool invocations; reference cases compare complete stdout with the Lean "
             "prediction; search cases classify the exit (0 / non-zero with diagnostic = fine; signal, sanitizer report, fatal "
             "exception abort, timeout, silent non-zero = violation). distinct_nontrivial = distinct (tool, exit class, first stdout line)")
